@@ -293,7 +293,7 @@ def _exhaustive(ctx, maxlen):
 
 
 def run_shard(ctx):
-    n = 1500 if ctx.tier == "quick" else 20000
+    n = 1500 if ctx.tier == "quick" else 40000
 
     def body(case):
         events = to_events(case)
@@ -303,6 +303,8 @@ def run_shard(ctx):
 
     run_hypothesis(ctx, strategy(), body, n)
     _exhaustive(ctx, 5 if ctx.tier == "quick" else 7)
+    if ctx.shard == 0:
+        real_socket_tier(ctx, 6 if ctx.tier == "quick" else 60)
     if ctx.tier == "thorough" and ctx.shard < 4:
         _atheris(ctx)
 
@@ -419,7 +421,74 @@ TECHNIQUE = ("property-based testing (Hypothesis) of scripted fragmentations "
              "+ atheris fuzzing")
 LEVEL_TEXT = ("Generated-input search: thousands of random fragmentations per "
               "run, every small stream/fragmentation/timeout placement "
-              "exhaustively (length<=5 quick, <=7 thorough) and a coverage-"
+              "exhaustively (length<=5 quick, <=7 thorough), a few runs over a real "
+              "loopback socket and a coverage-"
               "guided campaign, each judged by an oracle that only knows the "
               "byte stream. Exploration, not proof: absence of a violation "
               "is relative to the explored volume reported in the evidence.")
+
+
+# ---------------------------------------------------------------------------
+# end-to-end sanity tier: the same oracle over a REAL loopback TCP socket with
+# TCP_NODELAY and paced sends (validates the doubles' read()/select() model)
+# ---------------------------------------------------------------------------
+
+def run_real_socket(chunks, pace=0.002):
+    import socket
+    import threading
+    import time
+    from gscrib.printrun import device as devmod
+    srv = socket.socket(socket.AF_INET, socket.SOCK_STREAM)
+    srv.bind(("127.0.0.1", 0))
+    srv.listen(1)
+    port = srv.getsockname()[1]
+
+    def serve():
+        conn, _ = srv.accept()
+        conn.setsockopt(socket.IPPROTO_TCP, socket.TCP_NODELAY, 1)
+        for ch in chunks:
+            conn.sendall(ch)
+            time.sleep(pace)
+        conn.close()
+    th = threading.Thread(target=serve, daemon=True)
+    th.start()
+    dev = devmod.Device()
+    dev.connect(f"127.0.0.1:{port}")
+    results, empties = [], 0
+    t0 = time.time()
+    while time.time() - t0 < 10:
+        r = dev.readline()
+        if r is None:
+            break
+        if r == b"":
+            empties += 1
+            continue
+        results.append(r)
+    else:
+        raise Violation("real socket: READ_EOF never returned")
+    try:
+        dev.disconnect()
+    except Exception:
+        pass
+    srv.close()
+    th.join(2)
+    return results
+
+
+def real_socket_tier(ctx, n):
+    from hypothesis import strategies as st
+
+    def body(case):
+        chunks = [c for k, c in to_events(case) if k == "d"]
+        stream = b"".join(chunks)
+        got = run_real_socket(chunks)
+        if b"".join(got) != stream:
+            raise Violation(f"real socket: concatenation differs: stream={stream!r} got={got!r}")
+        for i, r in enumerate(got):
+            if r.count(b"\n") > 1 or (not r.endswith(b"\n") and i != len(got) - 1):
+                raise Violation(f"real socket: malformed line {r!r}")
+        ctx.case(case, nontrivial=len(chunks) >= 2 and b"\n" in stream,
+                 classes=["real_socket"], steps=len(chunks))
+
+    run_hypothesis(ctx, strategy().filter(lambda c: any(k == "d" for k, _ in c)), body, n,
+                   sub="real_socket")
